@@ -239,6 +239,13 @@ def impl(op):
                 return _compute(a[1], build(D), iv)
             if a[0] == "pd":
                 return _compute(a[1], build(dec_ds(a[3])), dec_iv(a[2]))
+            if a[0] == "ensseq":
+                data = build(dec_ds(a[1]))
+                out = []
+                for m in a[2:]:
+                    r = data.get_scores(verif.field.Ensemble(int(m)), 0, verif.axis.No(), None)
+                    out.append(xvec(np.array(r, float).flatten()))
+                return ";".join(out)
             if a[0] == "pdseq":
                 data = build(dec_ds(a[1]))
                 out = []
@@ -776,6 +783,16 @@ def gen_ops(tier, rng):
             t_item = [rng.choice(THRESHOLD_FAMILY), enc_iv(*iv_of(rng.choice(BINS[:4]), lvl, lvl))]
             seq = (q_item + t_item) if rng.random() < 0.5 else (t_item + q_item)
             yield "prob.sequence", "pdseq %s %s" % (enc_ds(D2), " ".join(seq + seq[:2]))
+    # ---- single ensemble members, several of them one after the other from ONE Data object
+    for _ in range(60 if quick else 1200):
+        D = gen_dataset(rng, tier)
+        if D.get("ens") is None or len(D["ens"][0]) < 2:
+            continue
+        M = len(D["ens"][0])
+        ms = [rng.randrange(M) for _k in range(rng.choice([2, 3, 4]))]
+        if len(set(ms)) == 1:
+            ms[-1] = (ms[0] + 1) % M
+        yield "prob.members", "ensseq %s %s" % (enc_ds(D), " ".join(str(m) for m in ms + ms[:1]))
     # ---- PIT statistics and pinball loss on vectors
     for _ in range(80 if quick else 2000):
         L = rng.choice([1, 2, 3, 5, 10, 30])
@@ -865,7 +882,7 @@ def cmp(op, impl_out, model_out):
     if a[0] in ("edges", "probperfect"):
         return impl_out == model_out
     tol = 1e-9
-    if a[0] in ("ensthr", "thrf"):
+    if a[0] in ("ensthr", "thrf", "ensseq"):
         tol = 1e-6                       # float32 in the code, k/n in the model
     if a[0] == "pd":
         name, iv, D, _ = _pd_parts(a)
@@ -912,6 +929,17 @@ def _judge_scores(name, o, p, tok, tol, where):
 
 def judge(op, impl_out, spec_out):
     a = op.split(" ")
+    if a[0] == "ensseq":
+        D = dec_ds(a[1])
+        got = impl_out.split(";")
+        for k, m in enumerate(a[2:]):
+            col = [row[int(m)] for row in D["ens"] if isfin(row[int(m)])]
+            want = xvec(col) if col else "nan"
+            if k >= len(got) or not _close(got[k], want, 1e-6):
+                return (_sig("member", "ensemble", order=("first" if k == 0 else "later")),
+                        "member %s requested as number %d of %s from one Data object: got %s, the file stores %s" %
+                        (m, k + 1, " ".join(a[2:]), got[k] if k < len(got) else None, want))
+        return None
     if a[0] == "pdseq":
         items, toks = _seq_items(a), impl_out.split(" ")
         if len(items) != len(toks):
